@@ -207,6 +207,10 @@ func (env *Env) ident(name string) Val {
 		if env.li == nil {
 			cerr("%s outside of a loop clause", name)
 		}
+		if ic, _ := rangeIntLoop(env.fr, env.li); ic != nil {
+			// range over an integer: the counter is the number of completed iterations
+			return intv(env.st.cells[ic].T)
+		}
 		c := env.rangeIndexCell()
 		v := env.st.cells[c]
 		if name == "\\done" {
